@@ -31,7 +31,13 @@ func c09InstallSeam() {
 	c09SeamOnce.Do(func() { engine.SetVerifFS(func() vfs.FS { return c09TheMux }) })
 }
 
-func (m *c09Mux) register(root string, fs vfs.FS) { m.roots.Store(root, fs) }
+type c09Root struct {
+	fs     vfs.FS
+	prefix string // real-disk roots: absolute directory prepended to the inner path
+}
+
+func (m *c09Mux) register(root string, fs vfs.FS) { m.roots.Store(root, c09Root{fs: fs}) }
+func (m *c09Mux) registerDir(root, dir string)    { m.roots.Store(root, c09Root{fs: vfs.Default, prefix: dir}) }
 func (m *c09Mux) unregister(root string)          { m.roots.Delete(root) }
 
 var errC09NoRoot = errors.New("c09mux: unknown root")
@@ -49,7 +55,14 @@ func (m *c09Mux) res(name string) (vfs.FS, string, error) {
 	if !ok {
 		return nil, "", &os.PathError{Op: "c09mux", Path: name, Err: errC09NoRoot}
 	}
-	return v.(vfs.FS), rest, nil
+	r := v.(c09Root)
+	if r.prefix != "" {
+		if rest == "." {
+			return r.fs, r.prefix, nil
+		}
+		return r.fs, r.prefix + "/" + rest, nil
+	}
+	return r.fs, rest, nil
 }
 
 func (m *c09Mux) res2(a, b string) (vfs.FS, string, string, error) {
